@@ -1,7 +1,10 @@
 /* C03 driver.  Two kinds of cases (first line):
  *   GATE                     real recv_cb / data_read / srpc_iterate / proto / srpc_getdata, own handler (no device
  *                            handler runs): observes the size-gate verdict only.
- *   CFG <devsim keys> ...    whole device (devsim.h): boots the board, connects, registers (REGOK 120), then events.
+ *   CFG devcfg fwupd nrel (gpio ch flags chflags)* nrs (up down)* nin (gpio type flags relay_gpio channel atcap)*
+ *                            whole device (devsim.h): boots that board, connects, registers (REGOK 120), then events.
+ *                            devcfg only routes the case to the binary built with RETREIVE_CHANNEL_CONFIG; fwupd=1 sets
+ *                            cfg.FirmwareUpdate so that the device asks for a firmware URL after registration.
  * events:  SRV <call> <rr> : <payload hex>   a well-framed server message (then iterates until the staging buffer is empty)
  *          ADV <us>                           virtual time passes (device mode)
  * outputs, per event k (0-based, counting SRV and ADV lines only):
@@ -16,6 +19,7 @@
  *   19 device-level: 0 cfg.ButtonsUpsideDown, 1 any other byte of supla_esp_cfg, 2 any other byte of supla_esp_state */
 #include "drvmain.h"
 #include "devsim.h"
+#include <supla_update.h>
 
 int *c03_chfunc(void); int c03_chfunc_len(void);
 int *c03_runtimecfg(void); int c03_runtimecfg_len(void);
@@ -132,9 +136,28 @@ static void run_case(int n, char **lines) {
     vd_srpc_init_with_handler(gate_handler);
     vd_set_registered(1);
   } else {
-    if (n > 0 && !strncmp(lines[0], "CFG", 3)) { ds_apply_cfg(lines[0]); i = 1; } else ds_apply_cfg("");
+    long long f[160]; int nf = 0, fwupd = 0;
+    ds_apply_cfg("");
+    if (n > 0 && !strncmp(lines[0], "CFG", 3)) {
+      char *q = lines[0] + 3;
+      while (*q && *q != ':' && nf < 160) { while (*q == ' ') q++; if (!*q || *q == ':') break; f[nf++] = strtoll(q, &q, 0); }
+      i = 1;
+      int o = 0;
+      if (o < nf) o++;                       /* devcfg: routing only */
+      if (o < nf) fwupd = (int)f[o++];
+      if (o < nf) { int nr = (int)f[o++]; for (int r = 0; r < nr && r < 8 && o + 3 < nf; r++, o += 4) {
+        v_board.relay[r].gpio = (int)f[o]; v_board.relay[r].channel = (int)f[o + 1]; v_board.relay[r].flags = (int)f[o + 2];
+        v_board.relay[r].channel_flags = (unsigned)f[o + 3]; v_board.nrelay = r + 1; } }
+      if (o < nf) { int nr = (int)f[o++]; for (int r = 0; r < nr && r < 4 && o + 1 < nf; r++, o += 2) {
+        v_board.rs[r].up_idx = (int)f[o]; v_board.rs[r].down_idx = (int)f[o + 1]; v_board.nrs = r + 1; } }
+      if (o < nf) { int nr = (int)f[o++]; for (int r = 0; r < nr && r < 7 && o + 5 < nf; r++, o += 6) {
+        v_board.input[r].gpio = (int)f[o]; v_board.input[r].type = (int)f[o + 1]; v_board.input[r].flags = (int)f[o + 2];
+        v_board.input[r].relay_gpio = (int)f[o + 3]; v_board.input[r].channel = (int)f[o + 4]; v_board.input[r].at_cap = (unsigned)f[o + 5];
+        v_board.ninput = r + 1; } }
+    }
     ds_log_gpio = 0; ds_log_wire = 0; ds_log_conn = 0; ds_log_restart = 0; ds_stop_on_restart = 1;
     ds_boot(1);
+    if (fwupd) { supla_esp_cfg.FirmwareUpdate = 1; supla_esp_update_init(); }
     v_advance(3000000ULL); ds_conncb(); v_advance(100000ULL);
     ds_regresult(SUPLA_RESULTCODE_TRUE, 120); v_advance(2000000ULL);
   }
